@@ -133,6 +133,8 @@ func suiteParse(prop, tier string, seed uint64, model string, kinds map[string]b
 			reqs = append(reqs, fmt.Sprintf("parse %d %s", fe, h))
 		}
 		reqs = append(reqs, "accept 1 "+h)
+		reqs = append(reqs, "spec 1 "+h)
+		reqs = append(reqs, "speck 1 "+h)
 	}
 	ans, err := RunModel(model, reqs)
 	if err != nil {
@@ -141,7 +143,9 @@ func suiteParse(prop, tier string, seed uint64, model string, kinds map[string]b
 	}
 	nontrivial := 0
 	for i, c := range cases {
-		base := i * (len(fes) + 1)
+		base := i * (len(fes) + 3)
+		specTree := ans[base+len(fes)+1]
+		specKnown := ans[base+len(fes)+2]
 		h := hx(c.in)
 		spec := ans[base+len(fes)] == "1"
 		if spec {
@@ -167,6 +171,23 @@ func suiteParse(prop, tier string, seed uint64, model string, kinds map[string]b
 			}
 			if kinds["fault"] && strings.HasPrefix(impl, "F") {
 				rep.Add(Disagreement{Case: h, Where: feNames[fe], Kind: "impl-vs-spec:fault", Impl: impl, Model: mod})
+			}
+			if kinds["value"] && (fe == feParser || fe == feGen) && accepted(impl) && strings.HasPrefix(specTree, "O") {
+				iv := strings.TrimSuffix(strings.TrimPrefix(impl, "O "), " | ")
+				sv := strings.TrimPrefix(specTree, "O ")
+				if sv == "" {
+					sv = "n"
+				}
+				if why := specMatch(sv, iv); why != "" {
+					class := ""
+					if strings.HasPrefix(why, "KNOWN:") {
+						class = strings.TrimPrefix(why, "KNOWN:")
+					} else if w2 := specMatch(strings.TrimPrefix(specKnown, "O "), iv); w2 == "" || strings.HasPrefix(w2, "KNOWN:") {
+						// equal to the specification variant that decodes each surrogate on its own
+						class = "surrogate-pair"
+					}
+					rep.Add(Disagreement{Case: h, Where: feNames[fe], Kind: "impl-vs-spec:value", Impl: impl, Spec: specTree, Detail: why, Class: class})
+				}
 			}
 			if impl != mod {
 				k := diffKind(impl, mod)
